@@ -1,168 +1,54 @@
 package main
 
-import (
-	"go/ast"
-	"go/token"
-	"strings"
-)
+import "go/ast"
 
-// C04: the eight confirmation guards, translated from `*big.Int` expressions to Lean `Int` terms.
-//   x.Cmp(y) == -1  ↦ decide (x < y)      x.Cmp(y) != 1 ↦ decide (¬ x > y)   …
-//   new(big.Int).Sub(a, b) / z.Add(a, b)  ↦ (a - b) / (a + b)     big.NewInt(v) ↦ v    int64(v), v.Int64() ↦ v
-// A guard that cannot be found or translated yields `false` and sets its `…Ok` flag to false, so the obligation fails.
-
+// C04: the eight confirmation guards, located by SHAPE and translated from `*big.Int` expressions to Lean `Int`
+// functions (see util_c04.go). Each generated definition is an `Option`: `none` = the guard was not located in a
+// shape the translator understands (T-tie unavailable for it; the correspondence ops carry the property alone).
 const corePath = "/root/go/pkg/mod/github.com/sygmaprotocol/sygma-core@v0.0.0-20241028121638-2c5597ae589f/"
-
-func bigTerm(e ast.Expr, names map[string]string) (string, bool) {
-	if v, ok := names[Src(e)]; ok {
-		return v, true
-	}
-	switch x := e.(type) {
-	case *ast.ParenExpr:
-		return bigTerm(x.X, names)
-	case *ast.BasicLit:
-		if x.Kind == token.INT {
-			return x.Value, true
-		}
-	case *ast.CallExpr:
-		fun := Src(x.Fun)
-		if fun == "big.NewInt" || fun == "int64" || fun == "uint64" {
-			if len(x.Args) == 1 {
-				return bigTerm(x.Args[0], names)
-			}
-		}
-		if sel, ok := x.Fun.(*ast.SelectorExpr); ok {
-			switch sel.Sel.Name {
-			case "Add", "Sub":
-				if len(x.Args) == 2 {
-					a, ok1 := bigTerm(x.Args[0], names)
-					b, ok2 := bigTerm(x.Args[1], names)
-					op := map[string]string{"Add": "+", "Sub": "-"}[sel.Sel.Name]
-					return "(" + a + " " + op + " " + b + ")", ok1 && ok2
-				}
-			case "Int64", "Uint64":
-				if len(x.Args) == 0 {
-					return bigTerm(sel.X, names)
-				}
-			}
-		}
-	}
-	return "0", false
-}
-
-// bigCond translates `x.Cmp(y) <op> <-1|0|1>`.
-func bigCond(e ast.Expr, names map[string]string) (string, bool) {
-	if p, ok := e.(*ast.ParenExpr); ok {
-		return bigCond(p.X, names)
-	}
-	b, ok := e.(*ast.BinaryExpr)
-	if !ok || (b.Op != token.EQL && b.Op != token.NEQ) {
-		return "false", false
-	}
-	call, ok := b.X.(*ast.CallExpr)
-	if !ok {
-		return "false", false
-	}
-	sel, ok := call.Fun.(*ast.SelectorExpr)
-	if !ok || sel.Sel.Name != "Cmp" || len(call.Args) != 1 {
-		return "false", false
-	}
-	x, ok1 := bigTerm(sel.X, names)
-	y, ok2 := bigTerm(call.Args[0], names)
-	rel := map[string]string{"-1": "<", "1": ">", "0": "="}[strings.ReplaceAll(Src(b.Y), " ", "")]
-	if rel == "" {
-		return "false", false
-	}
-	s := "(" + x + " " + rel + " " + y + ")"
-	if b.Op == token.NEQ {
-		s = "(¬ " + s + ")"
-	}
-	return "decide " + s, ok1 && ok2
-}
-
-// findGuard returns the condition of the first `if` in fd whose source contains `marker`.
-func findGuard(fd *ast.FuncDecl, marker string) ast.Expr {
-	var res ast.Expr
-	if fd == nil {
-		return nil
-	}
-	Walk(fd.Body, func(n ast.Node) bool {
-		if s, ok := n.(*ast.IfStmt); ok && res == nil && strings.Contains(Src(s.Cond), marker) {
-			res = s.Cond
-		}
-		return true
-	})
-	return res
-}
-
-// hasStmt reports whether fd contains an expression statement printing exactly as `src`.
-func hasStmt(fd *ast.FuncDecl, src string) bool {
-	found := false
-	if fd == nil {
-		return false
-	}
-	Walk(fd.Body, func(n ast.Node) bool {
-		if s, ok := n.(*ast.ExprStmt); ok && Src(s) == src {
-			found = true
-		}
-		return true
-	})
-	return found
-}
 
 func init() {
 	extractors["C04"] = func(o *Out) {
-		allOk := true
-		emit := func(name, params string, cond ast.Expr, names map[string]string, pre bool) {
-			s, ok := "false", false
-			if cond != nil && pre {
-				s, ok = bigCond(cond, names)
-				o.Facts[name+"_go"] = Src(cond)
-			}
-			if !ok {
-				s = "false"
-				allOk = false
+		emit := func(name, ty, lam string, file *ast.File, fd *ast.FuncDecl, roles map[string]string) {
+			s, src, ok := rejectCond(file, fd, guardSpec{roles: roles})
+			if src != "" {
+				o.Facts[name+"_go"] = src
 			}
 			o.Facts[name+"_translated"] = ok
-			o.Lean.WriteString("def " + name + " " + params + " : Bool := " + s + "\n")
+			if !ok {
+				o.Unavailable(name, "the confirmation guard was not located in a shape the translator understands")
+			}
+			o.Lean.WriteString("def " + name + " : Option (" + ty + ") := " + LeanOpt(ok, "fun "+lam+" => "+s) + "\n")
 		}
+		i3, i4, i2 := "Int → Int → Int → Bool", "Int → Int → Int → Int → Bool", "Int → Int → Bool"
 		// 1. BTC scan loop: sleep condition
 		f := o.ParseFile("chains/btc/listener/listener.go")
-		emit("btcScanSleep", "(head start conf : Int)", findGuard(FindFunc(f, "BtcListener", "ListenToEvents"), ".Cmp(l.blockConfirmations)"),
-			map[string]string{"head": "head", "startBlock": "start", "l.blockConfirmations": "conf"}, true)
-		// 2. EVM retry by tx hash: error condition
+		emit("btcScanSleep", i3, "head start conf", f, findMethod(f, "BtcListener", "ListenToEvents"),
+			map[string]string{"head": "head", "param": "start", "conf": "conf"})
+		// 2. EVM retry by tx hash: error condition (the confirmations are a parameter there)
 		f = o.ParseFile("chains/evm/calls/events/listener.go")
-		emit("evmRetryTxReject", "(latest receipt conf : Int)", findGuard(FindFunc(f, "Listener", "FetchRetryDepositEvents"), "latestBlock.Cmp("),
-			map[string]string{"latestBlock": "latest", "receipt.BlockNumber": "receipt", "blockConfirmations": "conf"}, true)
+		emit("evmRetryTxReject", i3, "latest receipt conf", f, findMethod(f, "Listener", "FetchRetryDepositEvents"),
+			map[string]string{"head": "latest", "h": "receipt", "param": "conf"})
 		// 3-5. retry-by-height message handlers: error condition
 		f = o.ParseFile("chains/evm/executor/message-handler.go")
-		emit("evmRetryMsgReject", "(latest h conf : Int)", findGuard(FindFunc(f, "RetryMessageHandler", "HandleMessage"), "latestBlock.Cmp("),
-			map[string]string{"latestBlock": "latest", "retryData.BlockHeight": "h", "h.blockConfirmations": "conf"}, true)
+		emit("evmRetryMsgReject", i3, "latest h conf", f, findMethod(f, "RetryMessageHandler", "HandleMessage"),
+			map[string]string{"head": "latest", "h": "h", "conf": "conf"})
 		f = o.ParseFile("chains/btc/executor/message-handler.go")
-		emit("btcRetryMsgReject", "(latest h conf : Int)", findGuard(FindFunc(f, "RetryMessageHandler", "HandleMessage"), "latestBlock.Cmp("),
-			map[string]string{"latestBlock": "latest", "retryData.BlockHeight": "h", "h.blockConfirmations": "conf"}, true)
+		emit("btcRetryMsgReject", i3, "latest h conf", f, findMethod(f, "RetryMessageHandler", "HandleMessage"),
+			map[string]string{"head": "latest", "h": "h", "conf": "conf"})
 		f = o.ParseFile("chains/substrate/executor/message-handler.go")
-		emit("subRetryMsgReject", "(fin h : Int)", findGuard(FindFunc(f, "RetryMessageHandler", "HandleMessage"), "latestBlock.Cmp("),
-			map[string]string{"latestBlock": "fin", "retryData.BlockHeight": "h"}, true)
+		emit("subRetryMsgReject", i2, "fin h", f, findMethod(f, "RetryMessageHandler", "HandleMessage"),
+			map[string]string{"fin": "fin", "h": "h"})
 		// 6. Substrate retry event: skip condition
 		f = o.ParseFile("chains/substrate/listener/event-handlers.go")
-		emit("subRetryEventSkip", "(fin h : Int)", findGuard(FindFunc(f, "RetryEventHandler", "HandleEvents"), ".Cmp(er.DepositOnBlockHeight.Int)"),
-			map[string]string{"finalizedBlockNumber": "fin", "er.DepositOnBlockHeight.Int": "h"}, true)
-		// 7-8. sygma-core listeners (pinned module version): sleep conditions; endBlock = startBlock + blockInterval
+		emit("subRetryEventSkip", i2, "fin h", f, findMethod(f, "RetryEventHandler", "HandleEvents"),
+			map[string]string{"fin": "fin", "h": "h"})
+		// 7-8. sygma-core listeners (pinned module version): sleep conditions
 		f = o.ParseFile(corePath + "chains/evm/listener/listener.go")
-		fd := FindFunc(f, "EVMListener", "ListenToEvents")
-		emit("evmScanSleep", "(head start k conf : Int)", findGuard(fd, ".Cmp(l.blockConfirmations)"),
-			map[string]string{"head": "head", "endBlock": "(start + k)", "l.blockConfirmations": "conf"},
-			hasStmt(fd, "endBlock.Add(startBlock, l.blockInterval)"))
+		emit("evmScanSleep", i4, "head start k conf", f, findMethod(f, "EVMListener", "ListenToEvents"),
+			map[string]string{"head": "head", "param": "start", "k": "k", "conf": "conf"})
 		f = o.ParseFile(corePath + "chains/substrate/listener/listener.go")
-		fd = FindFunc(f, "SubstrateListener", "ListenToEvents")
-		emit("subScanSleep", "(fin start k : Int)", findGuard(fd, ".Cmp(endBlock)"),
-			map[string]string{"head.Block.Header.Number": "fin", "endBlock": "(start + k)"},
-			hasStmt(fd, "endBlock.Add(startBlock, l.blockInterval)"))
-		if allOk {
-			o.Lean.WriteString("\ndef allTranslated : Bool := true\n")
-		} else {
-			o.Lean.WriteString("\ndef allTranslated : Bool := false\n")
-		}
+		emit("subScanSleep", i3, "fin start k", f, findMethod(f, "SubstrateListener", "ListenToEvents"),
+			map[string]string{"fin": "fin", "param": "start", "k": "k"})
 	}
 }
